@@ -7,6 +7,7 @@ import Thanos.Lemmas.KMerge
 import Thanos.Lemmas.SortSpec
 import Thanos.Lemmas.LoserTreeFrames
 import Thanos.Lemmas.Ring
+import Thanos.Lemmas.ChunkOrder
 import Thanos.Generated.Facts
 /-
   C03 — StoreAPI fan-out merge returns each series once, sorted, with all chunks.
@@ -484,6 +485,250 @@ theorem C03_exact_tree (rq : Request) (stores : List Store) (hab : rq.abort = fa
         (∀ c ∈ o.chunks, ∃ s, Delivered rq stores s ∧ cmpLabels o.lbls s.lbls = .eq ∧ c ∈ s.chunks)) :=
   C03_exact treeMerge (mergeMem_of_spec losertree_refines) rq stores hab hlim hd hfix hkeys
 
+/-! ### literal configuration independence
+
+  With the full order of `AggrChunk.Compare` (`Lemmas/ChunkOrder.lean`: a lexicographic product of
+  lawful comparisons, so the sorted chunk list is determined by its set) the answer a client reads
+  is *literally the same list* for lazy and eager retrieval and any batch size (the buffer size is
+  covered by `C03_ring_fifo`). -/
+
+theorem mem_respSet_lazy_eager (sharded : Bool) (without : List Bytes) (st : Store) (s : Series) :
+    Frame.series s ∈ respSet true sharded without st ↔ Frame.series s ∈ respSet false sharded without st := by
+  unfold respSet
+  simp only [Bool.true_and, Bool.false_and, Bool.false_eq_true, if_false]
+  split
+  · rename_i h
+    have hnr : (!st.supportsWithout && !without.isEmpty) = false := by
+      cases h1 : (!st.supportsWithout && !without.isEmpty) with
+      | false => rfl
+      | true => simp [h1] at h
+    simp only [hnr, Bool.false_eq_true, if_false]
+    unfold sortWithoutLabels
+    rw [(goInsertionSort_perm _).mem_iff]
+    simp only [List.isEmpty_nil, if_true]
+    constructor
+    · intro hm
+      exact List.mem_map.mpr ⟨_, hm, rfl⟩
+    · intro hm
+      obtain ⟨g, hg, hgs⟩ := List.mem_map.mp hm
+      cases g <;> simp_all
+  · rfl
+
+theorem delivered_congr (rq1 rq2 : Request) (hs : rq1.sharded = rq2.sharded) (hw : rq1.without = rq2.without)
+    (stores : List Store) (s : Series) : Delivered rq1 stores s → Delivered rq2 stores s := by
+  rintro ⟨st, hst, ho, h⟩
+  refine ⟨st, hst, ho, ?_⟩
+  rw [← hs, ← hw]
+  cases h1 : rq1.lazy <;> cases h2 : rq2.lazy <;> rw [h1] at h
+  · exact h
+  · exact (mem_respSet_lazy_eager _ _ st s).mpr h
+  · exact (mem_respSet_lazy_eager _ _ st s).mp h
+  · exact h
+
+theorem pairwise_lt_member_unique : ∀ (l : List Series),
+    l.Pairwise (fun a b => cmpLabels a.lbls b.lbls = .lt) → ∀ a ∈ l, ∀ b ∈ l,
+    cmpLabels a.lbls b.lbls = .eq → a = b
+  | [], _, a, ha, _, _, _ => by simp at ha
+  | x :: r, h, a, ha, b, hb, he => by
+    have hc := List.pairwise_cons.mp h
+    simp only [List.mem_cons] at ha hb
+    rcases ha with rfl | ha <;> rcases hb with rfl | hb
+    · rfl
+    · have := hc.1 b hb; rw [he] at this; simp at this
+    · have := hc.1 a ha
+      have hgt := (cmpLabels_swap _ _).mp this
+      rw [he] at hgt; simp at hgt
+    · exact pairwise_lt_member_unique r hc.2 a ha b hb he
+
+theorem sortedSeries_unique : ∀ (l1 l2 : List Series),
+    l1.Pairwise (fun a b => cmpLabels a.lbls b.lbls = .lt) →
+    l2.Pairwise (fun a b => cmpLabels a.lbls b.lbls = .lt) → (∀ x, x ∈ l1 ↔ x ∈ l2) → l1 = l2
+  | [], [], _, _, _ => rfl
+  | [], b :: l2, _, _, hm => by have := (hm b).mpr (by simp); simp at this
+  | a :: l1, [], _, _, hm => by have := (hm a).mp (by simp); simp at this
+  | a :: l1, b :: l2, h1, h2, hm => by
+    have h1c := List.pairwise_cons.mp h1
+    have h2c := List.pairwise_cons.mp h2
+    have hirr : ∀ x : Series, cmpLabels x.lbls x.lbls ≠ .lt := fun x => by rw [cmpLabels_refl]; simp
+    have hab : a = b := by
+      have ha2 : a ∈ b :: l2 := (hm a).mp (by simp)
+      have hb1 : b ∈ a :: l1 := (hm b).mpr (by simp)
+      simp only [List.mem_cons] at ha2 hb1
+      rcases ha2 with h | ha2
+      · exact h
+      · rcases hb1 with h | hb1
+        · exact h.symm
+        · have hlt1 := h1c.1 b hb1
+          have hlt2 := h2c.1 a ha2
+          have := (cmpLabels_swap _ _).mp hlt2
+          rw [hlt1] at this; simp at this
+    subst hab
+    congr 1
+    apply sortedSeries_unique l1 l2 h1c.2 h2c.2
+    intro x
+    constructor
+    · intro hx
+      have := (hm x).mp (List.mem_cons_of_mem _ hx)
+      simp only [List.mem_cons] at this
+      rcases this with rfl | h
+      · exact absurd (h1c.1 x hx) (hirr x)
+      · exact h
+    · intro hx
+      have := (hm x).mpr (List.mem_cons_of_mem _ hx)
+      simp only [List.mem_cons] at this
+      rcases this with rfl | h
+      · exact absurd (h2c.1 x hx) (hirr x)
+      · exact h
+
+/-- the chunk list of a merged series is sorted by the *full* order of `AggrChunk.Compare` -/
+theorem chain_sortedFull (fixed : Bool) (first : Series) (rest : List Series)
+    (hpop : ∀ c ∈ (first :: rest).flatMap (·.chunks), (dedupMap fixed ((first :: rest).flatMap (·.chunks))).isEmpty = false) :
+    (chain fixed first rest).chunks.Pairwise chunkLe := by
+  unfold chain
+  simp only
+  split
+  · rename_i hm
+    cases hf : first.chunks with
+    | nil => exact List.Pairwise.nil
+    | cons c r =>
+      have := hpop c (by simp [hf])
+      rw [hm] at this; simp at this
+  · exact sortChunks_sortedFull _
+
+/-- every answer series carries its chunks in the full `Compare` order -/
+theorem C03_chunks_sortedFull (merge : List (List Frame) → List Frame) (hm : MergeMem merge)
+    (rq : Request) (stores : List Store) (hab : rq.abort = false) (hlim : rq.limit = 0)
+    (hd : rq.dedup = true) (hfix : rq.fixedDedup = true)
+    (hkeys : ∀ ss : List Series, (∀ s ∈ ss, Delivered rq stores s) →
+      KeyInj (ss.flatMap (·.chunks)) ∧ Populated (ss.flatMap (·.chunks))) :
+    ∀ o ∈ flatten (proxySeriesWith merge rq stores).1, o.chunks.Pairwise chunkLe := by
+  rw [flatten_proxy_warn merge hm rq stores hab hlim]
+  simp only [hd, if_true, hfix]
+  intro o ho
+  obtain ⟨f, r, rfl, hmem, _⟩ := dedupGo_groups true (merge (fanOut rq stores).2.1) none []
+    (by intro x hx; simp at hx) (by intro f r h; simp at h) o ho
+  have hall : ∀ x ∈ f :: r, Delivered rq stores x := by
+    intro x hx
+    rcases hmem x hx with h | ⟨_, _, h, _⟩
+    · obtain ⟨set, hset, hxs⟩ := (hm _ _).mp (mem_seriesOf.mp h)
+      obtain ⟨st, hst, ho', rfl⟩ := fanOut_sets_from rq stores set hset
+      exact ⟨st, hst, ho', hxs⟩
+    · simp at h
+  have hk := hkeys (f :: r) hall
+  apply chain_sortedFull
+  intro c hc
+  -- a populated chunk makes the map non-empty
+  have hv := foldKeyed_values keyOf _ hk.1 hk.2
+  rw [dedupMap_fixed]
+  cases hE : (foldKeyed keyOf [] ((f :: r).flatMap (·.chunks))).isEmpty with
+  | false => rfl
+  | true =>
+    have hnil : foldKeyed keyOf [] ((f :: r).flatMap (·.chunks)) = [] := List.isEmpty_iff.mp hE
+    have := (hv.2 c).mpr hc
+    rw [hnil] at this; simp at this
+
+/-- a chunk some store delivered -/
+def DeliveredChunk (rq : Request) (stores : List Store) (c : Chunk) : Prop :=
+  ∃ s, Delivered rq stores s ∧ c ∈ s.chunks
+
+/-- **C03, configuration independence, literally.**  Two requests that differ only in the retrieval
+    strategy and the response batch size are answered with the very same list of series — same
+    order, same labels, same chunk lists — provided the delivered chunks are told apart by their
+    keys (`KeyInj`) and by their visible content (`ckey`: equal time range, encodings and data ⇒
+    equal hashes, i.e. the hash is a function of the data). -/
+theorem C03_config_independent (merge : List (List Frame) → List Frame) (hm : MergeSpec merge)
+    (rq1 rq2 : Request) (stores : List Store)
+    (hab1 : rq1.abort = false) (hlim1 : rq1.limit = 0) (hd1 : rq1.dedup = true) (hfix1 : rq1.fixedDedup = true)
+    (hab2 : rq2.abort = false) (hlim2 : rq2.limit = 0) (hd2 : rq2.dedup = true) (hfix2 : rq2.fixedDedup = true)
+    (hsh : rq1.sharded = rq2.sharded) (hwo : rq1.without = rq2.without)
+    (hs1 : StoresSorted rq1 stores) (hs2 : StoresSorted rq2 stores)
+    (hkeys : ∀ ss : List Series, (∀ s ∈ ss, Delivered rq1 stores s) →
+      KeyInj (ss.flatMap (·.chunks)) ∧ Populated (ss.flatMap (·.chunks)))
+    (hvis : ∀ c d, DeliveredChunk rq1 stores c → DeliveredChunk rq1 stores d → ckey c = ckey d → c = d) :
+    flatten (proxySeriesWith merge rq1 stores).1 = flatten (proxySeriesWith merge rq2 stores).1 := by
+  have hmm := mergeMem_of_spec hm
+  have d12 := delivered_congr rq1 rq2 hsh hwo stores
+  have d21 := delivered_congr rq2 rq1 hsh.symm hwo.symm stores
+  have hkeys2 : ∀ ss : List Series, (∀ s ∈ ss, Delivered rq2 stores s) →
+      KeyInj (ss.flatMap (·.chunks)) ∧ Populated (ss.flatMap (·.chunks)) :=
+    fun ss h => hkeys ss (fun s hs => d21 s (h s hs))
+  have so1 := C03_sorted_once merge hm rq1 stores hab1 hlim1 hd1 hs1
+  have so2 := C03_sorted_once merge hm rq2 stores hab2 hlim2 hd2 hs2
+  have ex1 := C03_exact merge hmm rq1 stores hab1 hlim1 hd1 hfix1 hkeys
+  have ex2 := C03_exact merge hmm rq2 stores hab2 hlim2 hd2 hfix2 hkeys2
+  have sf1 := C03_chunks_sortedFull merge hmm rq1 stores hab1 hlim1 hd1 hfix1 hkeys
+  have sf2 := C03_chunks_sortedFull merge hmm rq2 stores hab2 hlim2 hd2 hfix2 hkeys2
+  generalize flatten (proxySeriesWith merge rq1 stores).1 = out1 at *
+  generalize flatten (proxySeriesWith merge rq2 stores).1 = out2 at *
+  -- one direction, stated symmetrically
+  have half : ∀ (rqa rqb : Request) (outa outb : List Series),
+      (∀ s, Delivered rqa stores s → Delivered rqb stores s) →
+      (∀ s, Delivered rqb stores s → Delivered rqa stores s) →
+      (∀ c d, DeliveredChunk rqa stores c → DeliveredChunk rqa stores d → ckey c = ckey d → c = d) →
+      outa.Pairwise (fun a b => cmpLabels a.lbls b.lbls = .lt) →
+      outb.Pairwise (fun a b => cmpLabels a.lbls b.lbls = .lt) →
+      ((∀ s, Delivered rqa stores s → ∃ o ∈ outa, cmpLabels o.lbls s.lbls = .eq ∧ ∀ c ∈ s.chunks, c ∈ o.chunks) ∧
+       (∀ o ∈ outa, o.chunks.Nodup ∧ o.chunks.Pairwise timeLe ∧ (∃ s, Delivered rqa stores s ∧ o.lbls = s.lbls) ∧
+         (∀ c ∈ o.chunks, ∃ s, Delivered rqa stores s ∧ cmpLabels o.lbls s.lbls = .eq ∧ c ∈ s.chunks))) →
+      ((∀ s, Delivered rqb stores s → ∃ o ∈ outb, cmpLabels o.lbls s.lbls = .eq ∧ ∀ c ∈ s.chunks, c ∈ o.chunks) ∧
+       (∀ o ∈ outb, o.chunks.Nodup ∧ o.chunks.Pairwise timeLe ∧ (∃ s, Delivered rqb stores s ∧ o.lbls = s.lbls) ∧
+         (∀ c ∈ o.chunks, ∃ s, Delivered rqb stores s ∧ cmpLabels o.lbls s.lbls = .eq ∧ c ∈ s.chunks))) →
+      (∀ o ∈ outa, o.chunks.Pairwise chunkLe) → (∀ o ∈ outb, o.chunks.Pairwise chunkLe) →
+      ∀ o ∈ outa, o ∈ outb := by
+    intro rqa rqb outa outb dab dba hv soa sob exa exb sfa sfb oa hoa
+    obtain ⟨hnda, _, ⟨s, hsd, hsl⟩, hfrom⟩ := exa.2 oa hoa
+    obtain ⟨ob, hob, hobl, _⟩ := exb.1 s (dab s hsd)
+    have hlbl : ob.lbls = oa.lbls := by rw [cmpLabels_eq hobl, hsl]
+    obtain ⟨hndb, _, _, hfromb⟩ := exb.2 ob hob
+    have hmem : ∀ c, c ∈ oa.chunks ↔ c ∈ ob.chunks := by
+      intro c
+      constructor
+      · intro hc
+        obtain ⟨s', hs'd, hs'l, hcs'⟩ := hfrom c hc
+        obtain ⟨ob', hob', hob'l, hall⟩ := exb.1 s' (dab s' hs'd)
+        have : ob' = ob := by
+          apply pairwise_lt_member_unique outb sob ob' hob' ob hob
+          rw [cmpLabels_eq hob'l, ← cmpLabels_eq hs'l, hlbl]; exact cmpLabels_refl _
+        rw [← this]; exact hall c hcs'
+      · intro hc
+        obtain ⟨s', hs'd, hs'l, hcs'⟩ := hfromb c hc
+        obtain ⟨oa', hoa', hoa'l, hall⟩ := exa.1 s' (dba s' hs'd)
+        have : oa' = oa := by
+          apply pairwise_lt_member_unique outa soa oa' hoa' oa hoa
+          rw [cmpLabels_eq hoa'l, ← cmpLabels_eq hs'l, hlbl]; exact cmpLabels_refl _
+        rw [← this]; exact hall c hcs'
+    have hchunks : oa.chunks = ob.chunks := by
+      apply sorted_unique _ _ (sfa oa hoa) (sfb ob hob) hnda hndb hmem
+      intro c hc d hd hk
+      obtain ⟨sc, hscd, _, hcsc⟩ := hfrom c hc
+      obtain ⟨sd, hsdd, _, hdsd⟩ := hfrom d hd
+      exact hv c d ⟨sc, hscd, hcsc⟩ ⟨sd, hsdd, hdsd⟩ hk
+    have : oa = ob := by
+      cases oa; cases ob
+      simp only at hlbl hchunks
+      rw [hlbl, hchunks]
+    rw [this]; exact hob
+  apply sortedSeries_unique out1 out2 so1 so2
+  intro x
+  constructor
+  · exact half rq1 rq2 out1 out2 d12 d21 hvis so1 so2 ex1 ex2 sf1 sf2 x
+  · refine half rq2 rq1 out2 out1 d21 d12 ?_ so2 so1 ex2 ex1 sf2 sf1 x
+    rintro c d ⟨sc, hsc, hc⟩ ⟨sd, hsd, hd⟩ hk
+    exact hvis c d ⟨sc, d21 sc hsc, hc⟩ ⟨sd, d21 sd hsd, hd⟩ hk
+
+/-- … for the merge the proxy uses -/
+theorem C03_config_independent_tree (rq1 rq2 : Request) (stores : List Store)
+    (hab1 : rq1.abort = false) (hlim1 : rq1.limit = 0) (hd1 : rq1.dedup = true) (hfix1 : rq1.fixedDedup = true)
+    (hab2 : rq2.abort = false) (hlim2 : rq2.limit = 0) (hd2 : rq2.dedup = true) (hfix2 : rq2.fixedDedup = true)
+    (hsh : rq1.sharded = rq2.sharded) (hwo : rq1.without = rq2.without)
+    (hs1 : StoresSorted rq1 stores) (hs2 : StoresSorted rq2 stores)
+    (hkeys : ∀ ss : List Series, (∀ s ∈ ss, Delivered rq1 stores s) →
+      KeyInj (ss.flatMap (·.chunks)) ∧ Populated (ss.flatMap (·.chunks)))
+    (hvis : ∀ c d, DeliveredChunk rq1 stores c → DeliveredChunk rq1 stores d → ckey c = ckey d → c = d) :
+    flatten (proxySeries rq1 stores).1 = flatten (proxySeries rq2 stores).1 :=
+  C03_config_independent treeMerge losertree_refines rq1 rq2 stores hab1 hlim1 hd1 hfix1 hab2 hlim2 hd2 hfix2
+    hsh hwo hs1 hs2 hkeys hvis
+
 /-! ### the lazy buffer -/
 
 /-- **Any lazy buffer size.**  The ring buffer between a lazy receiver and the merge
@@ -551,5 +796,10 @@ example : StoresSorted rq0 storesEx := by
   · simp [storeSeries, stOK, sr, lblLe]; decide
   · simp [ReadInOrder, stOK, rq0] at hro
   · simp [storeSeries, stOK, lblLe]; decide
+
+-- configuration independence on the concrete stores above: eager retrieval with batches of 64
+-- gives literally the list lazy retrieval with batches of 2 gives
+example : flatten (proxySeries { rq0 with lazy := false, batchSize := 64 } storesEx).1
+    = flatten (proxySeries rq0 storesEx).1 := by decide
 
 end Thanos.Merge
